@@ -1833,7 +1833,8 @@ class OperatorRightScalarMult(Operator):
         >>> derivative([1, 1, 1])
         rn(3).element([ 3.,  3.,  3.])
         """
-        return self.scalar * self.operator.derivative(self.scalar * x)
+        return OperatorRightScalarMult(
+            self.operator.derivative(self.scalar * x), self.scalar)
 
     @property
     def adjoint(self):
